@@ -535,6 +535,12 @@ class ShapeInterp:
                 for k in it.d:
                     items.append(self.tostr(self.ev(fi, e.elt, self.bind(g.target, ("key", k), env)), fi, e))
                 return SubSeq(items) if g.ifs else SubSeq(items, True)
+            if isinstance(it, ConstItems):       # (filtered) iteration over the (key, value) pairs of a constant map
+                items = []
+                for k, v in it.d.items():
+                    el = Pair(("key", k), lit(v) if isinstance(v, str) else Opaque("const"))
+                    items.append(self.tostr(self.ev(fi, e.elt, self.bind(g.target, el, env)), fi, e))
+                return SubSeq(items) if g.ifs else SubSeq(items, True)
             if isinstance(it, KeySet):
                 items = []
                 for k in it.keys:
